@@ -403,8 +403,15 @@ def dispatchers_answer_through_the_primitives(ctx, rule):
                 return all(is_primitive_ref(v, depth + 1) for v in assigned[f.id])
             return False
 
+        qparams = {p_ for p_ in fi.all_param_names() if p_ == 'quantity'} or set(fi.all_param_names()[-1:])
+
         def from_primitive(e, depth=0):
             if isinstance(e, ast.Call) and is_primitive_ref(e.func):
+                return True
+            # the primitives may carry other names: what matters is that the answer comes out of a call that is handed the
+            # quantity (the request is carried out by somebody), not out of the dispatcher's own parameters
+            if isinstance(e, ast.Call) and any(isinstance(y, ast.Name) and y.id in qparams
+                                               for a_ in list(e.args) + [k.value for k in e.keywords] for y in ast.walk(a_)):
                 return True
             if isinstance(e, (ast.Tuple, ast.List)):
                 return all(from_primitive(x, depth) for x in e.elts)
